@@ -18,7 +18,7 @@ LEVEL = "exploration"
 SHARDS = {"quick": 8, "thorough": 16}
 RULE = ("response frames built from every valid kind (state, capabilities, properties B1/B0, energy, humidity): truncated to every "
         "shorter body length (body check and outer checksum recomputed so validation passes; also the empty frame and frames "
-        "shorter than the header), every count byte and every size byte set to 0..255, every response id 0..255 with random "
+        "shorter than the header), every count byte, size byte and capability value byte set to 0..255, the header length byte inconsistent with the real length, every response id 0..255 with random "
         "bodies of length 0..60 and frame types 0..7, oversized frames, and fields pointing past the end; delivered alone or in "
         "mixes [bad*, good, bad*] as the answer to every request of an operation (refresh, apply with/without pending property "
         "updates, get_capabilities first/additional page, toggle_display, start_self_clean, and short sequences of them under the same device). Oracle: the operation returns "
@@ -67,6 +67,17 @@ def make_frame(spec: dict) -> bytes:
         f = RK.valid_frame(spec["kind"], 1)
         body = f[10:-2] + bytes((i * 7) & 0xFF for i in range(spec["extra"]))
         return rebuild(f[9], body)
+    if t == "lenbyte":
+        # a frame whose header length byte disagrees with its real length (outer checksum still right)
+        f = bytearray(RK.valid_frame(spec["kind"], 1))
+        if spec.get("k") is not None:
+            body = bytes(f[10:-2])[:spec["k"]]
+            f = bytearray(rebuild(f[9], body, "sum" if spec["kind"] == "state_sum" else "crc"))
+            f[1] = len(RK.valid_frame(spec["kind"], 1)) - 1        # truncated on the way, length byte as originally sent
+        else:
+            f[1] = spec["val"] & 0xFF
+        f[-1] = rc.checksum(bytes(f[1:-1]))
+        return bytes(f)
     if t == "badsum":
         f = bytearray(RK.valid_frame(spec["kind"], 1))
         f[-1] ^= 0x55
@@ -235,6 +246,20 @@ def _specs(quick: bool, rnd: random.Random) -> list:
     for p in (1, 2, 3):
         for v in vals:
             specs.append({"t": "setbyte", "kind": "energy", "pos": p, "val": v})
+    # every capability *value* byte (first data byte of each record) <- odd values
+    pos = 2
+    while pos + 2 < len(caps):
+        if caps[pos + 2]:
+            for v in vals:
+                specs.append({"t": "setbyte", "kind": "caps", "pos": pos + 3, "val": v})
+        pos += 3 + caps[pos + 2]
+    # header length byte inconsistent with the real length
+    for kind in RK.KINDS:
+        n = len(RK.valid_frame(kind, 1))
+        for v in sorted({0, 1, 9, 10, 11, 12, 13, n - 3, n - 2, n - 1, n, n + 1, 200, 255}):
+            specs.append({"t": "lenbyte", "kind": kind, "val": v})
+        for k in range(0, n - 12, 3 if quick else 1):
+            specs.append({"t": "lenbyte", "kind": kind, "k": k})
     # every response id with bodies of several lengths, every frame type
     for rid in range(256):
         lens = (0, 1, 2, 3, 4, 5, 14, 15, 16, 18, 19, 20, 24, 40, 60) if not quick else (0, 2, 4, 15, 19, 30)
@@ -275,6 +300,8 @@ def run(ctx) -> None:
         st.fixed_dictionaries({"t": st.just("short"), "k": st.integers(0, 12)}),
         st.fixed_dictionaries({"t": st.just("oversize"), "kind": st.sampled_from(RK.KINDS), "extra": st.integers(1, 400)}),
         st.fixed_dictionaries({"t": st.just("badsum"), "kind": st.sampled_from(RK.KINDS)}),
+        st.fixed_dictionaries({"t": st.just("lenbyte"), "kind": st.sampled_from(RK.KINDS), "val": st.integers(0, 255)}),
+        st.fixed_dictionaries({"t": st.just("lenbyte"), "kind": st.sampled_from(RK.KINDS), "k": st.integers(0, 70), "val": st.just(0)}),
     )
     cases = st.fixed_dictionaries({"op": st.sampled_from(OPS), "good": st.booleans(), "pre": st.lists(spec, max_size=2),
                                    "post": st.lists(spec, max_size=2), "two_pages": st.booleans(), "prepared": st.booleans()})
